@@ -186,9 +186,115 @@ package filtering
 //@   ensures empty-answer: matchedIn(d, host) && !valueIn(d, host, qtype) ==> res.Reason == Rewritten && len(res.IPList) == 0 && res.CanonName == ""
 //@   ensures only-table-addresses: forall n int :: 0 <= n && n < len(res.IPList) ==> (exists k int :: 0 <= k && k < len(d.conf.Rewrites) && res.IPList[n] == d.conf.Rewrites[k].IP && d.conf.Rewrites[k].Type == qtype && res.IPList[n] != netip.Addr{} && (hostMatches(d.conf.Rewrites[k], res.CanonName) || hostMatches(d.conf.Rewrites[k], host)))
 //@   ensures outcome: res.Reason == NotFilteredNotFound || res.Reason == Rewritten
+//@   ensures never-blocks: !res.IsFiltered
 //@   modifies epoch
 //@   loop 1 invariant res.Reason == Rewritten && len(res.IPList) == 0 && cap(res.IPList) == 0 && (res.CanonName == host || (res.CanonName == "" && host == origHost))
 //@   loop 1 invariant matched ==> (forall i int :: {mark(i)} 0 <= i && i < len(rewrites) ==> (exists k int :: 0 <= k && k < len(d.conf.Rewrites) && rewrites[i] == d.conf.Rewrites[k] && hostMatches(d.conf.Rewrites[k], host) && typeMatches(d.conf.Rewrites[k], qtype)))
 //@   loop 1 invariant (origHost == host ==> (matched <==> matchedIn(d, host)) && (valueIn(d, host, qtype) ==> len(rewrites) > 0))
 //@   loop 1 invariant len(rewrites) > 0 ==> matched && valueIn(d, host, qtype)
 //@   loop 1 invariant (res.CanonName == "" && host == origHost) || valueIn(d, origHost, qtype)
+
+// ---- C01: configuration accessors used when a blocked answer is synthesised ----
+//@ func (d *DNSFilter) BlockingMode() (mode BlockingMode, bIPv4 netip.Addr, bIPv6 netip.Addr)
+//@   property C01
+//@   requires !held(d.confMu) && !rheld(d.confMu)
+//@   ensures mode == d.conf.BlockingMode && bIPv4 == d.conf.BlockingIPv4 && bIPv6 == d.conf.BlockingIPv6
+//@   modifies nothing
+//@ func (d *DNSFilter) BlockedResponseTTL() (ttl uint32)
+//@   property C01
+//@   requires !held(d.confMu) && !rheld(d.confMu)
+//@   ensures ttl == d.conf.BlockedResponseTTL
+//@   modifies nothing
+//@ func (d *DNSFilter) SafeBrowsingBlockHost() (host string)
+//@   property C01
+//@   requires !held(d.confMu) && !rheld(d.confMu)
+//@   modifies nothing
+//@ func (d *DNSFilter) ParentalBlockHost() (host string)
+//@   property C01
+//@   requires !held(d.confMu) && !rheld(d.confMu)
+//@   modifies nothing
+
+// ---- C01: the host checkers: nothing is blocked with protection off; the allow engine is consulted first ----
+//@ func (r Reason) In(reasons []Reason) (ok bool)
+//@   trusted
+//@   ensures ok == (exists k int :: 0 <= k && k < len(reasons) && reasons[k] == r)
+//@   modifies nothing
+//@ func (r Reason) Matched() (r0 bool)
+//@   property C01
+//@   ensures r0 == (r != NotFilteredNotFound)
+//@   modifies nothing
+//@ func makeResult(matchedRules []rules.Rule, reason Reason) (res Result)
+//@   property C01
+//@   ensures res.Reason == reason && res.IsFiltered == (reason == FilteredBlockList) && len(res.Rules) == len(matchedRules) && res.CanonName == "" && len(res.IPList) == 0
+//@   modifies nothing
+//@   ensures fresh-rules: forall i int :: {res.Rules[i]} 0 <= i && i < len(res.Rules) ==> res.Rules[i] != nil && fresh(res.Rules[i])
+//@   loop 1 invariant len(resRules) == len(matchedRules) && fresh(arrayOf(resRules))
+//@   loop 1 invariant forall i int :: {resRules[i]} 0 <= i && i < #i ==> resRules[i] != nil && fresh(resRules[i])
+//@ func hostRulesToRules(netRules []*rules.HostRule) (res []rules.Rule)
+//@   trusted
+//@   ensures len(res) == len(netRules)
+//@   modifies nothing
+//@ func (d *DNSFilter) matchHostProcessAllowList(host string, dnsres *urlfilter.DNSResult) (res Result, err error)
+//@   property C01
+//@   ensures err == nil ==> res.Reason == NotFilteredAllowList && !res.IsFiltered
+//@   ensures err != nil ==> !res.IsFiltered && res.Reason == NotFilteredNotFound
+//@   modifies nothing
+//@ func hostResultForOtherQType(dnsres *urlfilter.DNSResult) (res Result)
+//@   property C01
+//@   ensures res.IsFiltered == (res.Reason == FilteredBlockList) && (res.Reason == FilteredBlockList || res.Reason == NotFilteredNotFound)
+//@   modifies nothing
+//@ func (d *DNSFilter) matchHostProcessDNSResult(qtype uint16, dnsres *urlfilter.DNSResult) (res Result)
+//@   property C01
+//@   requires dnsres.NetworkRule != nil ==> true
+//@   ensures res.IsFiltered == (res.Reason == FilteredBlockList) && (res.Reason == FilteredBlockList || res.Reason == NotFilteredAllowList || res.Reason == NotFilteredNotFound)
+//@   modifies nothing
+//@ func (d *DNSFilter) processDNSResultRewrites(dnsres *urlfilter.DNSResult, host string) (dnsRWRes Result)
+//@   trusted
+//@   ensures !dnsRWRes.IsFiltered && (dnsRWRes.Reason == NotFilteredNotFound || dnsRWRes.Reason == RewrittenRule)
+//@   modifies nothing
+
+// matchHost: filtering off for the client means no rule list applies; protection off means nothing is blocked; the
+// allow engine is asked first and its match wins; a blocked result comes from a match of the block engine only.
+//@ func (d *DNSFilter) matchHost(host string, rrtype uint16, setts *Settings) (res Result, err error)
+//@   property C01
+//@   requires !held(d.engineLock) && !rheld(d.engineLock)
+//@   requires d.filteringEngineAllow == nil || d.filteringEngineAllow != d.filteringEngine
+//@   ensures filtering-off: !old(setts.FilteringEnabled) ==> err == nil && res.Reason == NotFilteredNotFound && !res.IsFiltered && engineHit == old(engineHit)
+//@   ensures protection-off: !old(setts.ProtectionEnabled) ==> !res.IsFiltered
+//@   ensures allow-wins: old(setts.FilteringEnabled) && old(setts.ProtectionEnabled) && old(d.filteringEngineAllow) != nil && engineHit[old(d.filteringEngineAllow)] ==> !res.IsFiltered && (err != nil || res.Reason == NotFilteredAllowList)
+//@   ensures blocked-only-by-block-engine: res.IsFiltered ==> err == nil && res.Reason == FilteredBlockList && old(setts.FilteringEnabled) && old(setts.ProtectionEnabled) && old(d.filteringEngine) != nil && engineHit[old(d.filteringEngine)] && (old(d.filteringEngineAllow) == nil || !engineHit[old(d.filteringEngineAllow)])
+//@   modifies engineHit
+
+// What every entry of d.hostCheckers guarantees (each of the six functions installed by New is verified against it).
+//@ func (fieldcall) hostChecker_check(host string, qtype uint16, setts *Settings) (res Result, err error)
+//@   ensures res.IsFiltered ==> setts.ProtectionEnabled
+//@   ensures err != nil ==> !res.IsFiltered
+//@   modifies engineHit, epoch
+//@ func matchBlockedServicesRules(host string, _p1 uint16, setts *Settings) (res Result, err error)
+//@   property C01
+//@   ensures res.IsFiltered ==> setts.ProtectionEnabled
+//@   ensures err == nil
+//@   modifies *
+//@ func (d *DNSFilter) checkSafeBrowsing(host string, _p1 uint16, setts *Settings) (res Result, err error)
+//@   property C01
+//@   ensures res.IsFiltered ==> old(setts.ProtectionEnabled)
+//@   ensures err != nil ==> !res.IsFiltered
+//@   modifies *
+//@ func (d *DNSFilter) checkParental(host string, _p1 uint16, setts *Settings) (res Result, err error)
+//@   property C01
+//@   ensures res.IsFiltered ==> old(setts.ProtectionEnabled)
+//@   ensures err != nil ==> !res.IsFiltered
+//@   modifies *
+//@ func (d *DNSFilter) matchSysHosts(host string, qtype uint16, setts *Settings) (res Result, err error)
+//@   property C01
+//@   ensures !res.IsFiltered
+//@   modifies *
+
+// CheckHost: first matching checker wins; whatever it is, nothing is blocked with protection off.
+//@ func (d *DNSFilter) CheckHost(host string, qtype uint16, setts *Settings) (res Result, err error)
+//@   property C01
+//@   requires tableOK(d) && !held(d.confMu) && !rheld(d.confMu)
+//@   ensures protection-off: res.IsFiltered ==> setts.ProtectionEnabled
+//@   ensures err != nil ==> !res.IsFiltered
+//@   ensures root: host == "" ==> res.Reason == NotFilteredNotFound && !res.IsFiltered && err == nil
+//@   modifies engineHit, epoch
